@@ -90,7 +90,12 @@ func decode(s string, idx []int, ent float32) (r DecRes) {
 }
 
 // build constructs an arbitrary token sequence through the public API (a full index admits any types and lengths <= 255).
+// builtStr is what Password.String() says for the password last built (the string a caller would store next to the index)
+var builtStr string
+var builtOK bool
+
 func build(toks []TokJ) (spg.Tokens, bool) {
+	builtOK = false
 	s := ""
 	idx := []int{3}
 	for _, t := range toks {
@@ -112,6 +117,7 @@ func build(toks []TokJ) (spg.Tokens, bool) {
 	if err != nil {
 		return nil, false
 	}
+	builtStr, builtOK = p.String(), true
 	return p.Tokens(), true
 }
 
@@ -157,6 +163,7 @@ func cmdTokens(args []string) {
 				e2 = float32(math.NaN())
 			}
 			wantRT = s.Toks
+			nextPStr, nextHasP = builtStr, builtOK
 			emitRT(em, ts, e2, "built")
 			wantRT = nil
 		case "dec":
@@ -199,6 +206,7 @@ func cmdTokens(args []string) {
 				em.Emit(map[string]interface{}{"op": "skip", "why": "not generated"})
 				continue
 			}
+			nextPStr, nextHasP = p.String(), true
 			emitRT(em, p.Tokens(), p.Entropy, "generated")
 		}
 	}
@@ -214,7 +222,12 @@ type pendingRT struct {
 	how  string
 	enc  EncRes
 	raw  spg.Indices // the very slice MakeIndices returned (not a copy): it must still be valid when it is used later
+	pstr string      // Password.String() of the password these tokens belong to
+	hasP bool
 }
+
+var nextPStr string
+var nextHasP bool
 
 var rtBatch []pendingRT
 var wantRT []TokJ
@@ -222,7 +235,8 @@ var wantRT []TokJ
 // emitRT encodes now and decodes later: indices of a whole batch are produced before any of them is used,
 // so that an index must not depend on MakeIndices calls made after it.
 func emitRT(em *Emitter, ts spg.Tokens, ent float32, how string) {
-	p := pendingRT{ts: ts, ent: ent, how: how, enc: encode(ts), want: wantRT}
+	p := pendingRT{ts: ts, ent: ent, how: how, enc: encode(ts), want: wantRT, pstr: nextPStr, hasP: nextHasP}
+	nextHasP = false
 	func() {
 		defer func() { recover() }()
 		p.raw, _ = ts.MakeIndices()
@@ -244,12 +258,15 @@ func flushRT(em *Emitter) {
 			p.enc.Idx = now
 		}
 		curWant = p.want
+		curPStr, curHasP = p.pstr, p.hasP
 		emitRTNow(em, p.ts, p.ent, p.how, p.enc)
 	}
 	rtBatch = nil
 }
 
 var curWant []TokJ
+var curPStr string
+var curHasP bool
 
 func emitRTNow(em *Emitter, ts spg.Tokens, ent float32, how string, enc EncRes) {
 	p := spg.Password{}
@@ -257,6 +274,9 @@ func emitRTNow(em *Emitter, ts spg.Tokens, ent float32, how string, enc EncRes) 
 	str := ""
 	for _, t := range ts {
 		str += t.Value()
+	}
+	if curHasP {
+		str = curPStr // what Password.String() returned: the string a caller stores next to the index
 	}
 	dec := DecRes{Kind: "none", Toks: []TokJ{}}
 	if enc.Kind == "ok" {
